@@ -133,6 +133,9 @@ def run(ctx):
     mods = ["TomlVerif.Gen.CheckLex", "TomlVerif.Props.C05", "driver"]
     lake_build(ctx, mods, {"TomlVerif.Gen.CheckLex": "table theorems incl. LIMIT = 80", "TomlVerif.Props.C05": "property theorems"})
     audit(ctx, "TomlVerif.Props.C05", "TomlVerif/Props/C05.lean")
+    # document level: every accepted text decodes to a tree nesting at most 3*LIMIT-2 deep
+    lake_build(ctx, ["TomlVerif.Props.C05Doc"], {"TomlVerif.Props.C05Doc": "property theorems: document-level depth bound"})
+    audit(ctx, "TomlVerif.Props.C05Doc", "TomlVerif/Props/C05Doc.lean")
     if ctx.tier == "thorough":
         leanchecker(ctx, "TomlVerif.Props.C05")
     docs = list(dict.fromkeys(gen(ctx)))
